@@ -26,6 +26,49 @@ import (
 // connected, and so on. The harness plays the adapter: when the server closed a
 // connection's transport it calls CloseByPeer (CloseConnection + transport close).
 
+// c07hCloud wraps the real cloud-control adapter and injects faults (storage behind cloud
+// control unavailable) into the state calls made while connections close / time out / beat.
+type c07hCloud struct {
+	session.CloudControlAPI
+	mode    int // 0 healthy, 1 every call fails, 2 seeded pattern
+	pattern uint64
+	calls   atomic.Int64
+	run     *vk.Run
+}
+
+func (c *c07hCloud) fault(what string) error {
+	n := c.calls.Add(1)
+	if c.mode == 1 || (c.mode == 2 && (c.pattern>>(uint(n)%64))&1 == 1) {
+		c.run.Count("cloud_faults_injected", 1)
+		if what == "disconnect" {
+			c.run.Count("cloud_faults_on_disconnect", 1)
+		}
+		return fmt.Errorf("c07: injected cloud-control storage fault (%s)", what)
+	}
+	return nil
+}
+
+func (c *c07hCloud) DisconnectClient(id int64) error {
+	if err := c.fault("disconnect"); err != nil {
+		return err
+	}
+	return c.CloudControlAPI.DisconnectClient(id)
+}
+
+func (c *c07hCloud) DisconnectClientIfMatch(id int64, nodeID, connID string) (bool, error) {
+	if err := c.fault("disconnect"); err != nil {
+		return false, err
+	}
+	return c.CloudControlAPI.DisconnectClientIfMatch(id, nodeID, connID)
+}
+
+func (c *c07hCloud) EnsureClientOnline(id int64, nodeID, connID, ip, proto, ver string) error {
+	if err := c.fault("ensure-online"); err != nil {
+		return err
+	}
+	return c.CloudControlAPI.EnsureClientOnline(id, nodeID, connID, ip, proto, ver)
+}
+
 type c07hConn struct {
 	slot    int
 	c       *miniClient
@@ -58,7 +101,7 @@ type c07hWorld struct {
 	base     session.ConnectionStats
 }
 
-func c07hNewWorld(t *testing.T, run *vk.Run, nslots, ctlCap int) *c07hWorld {
+func c07hNewWorld(t *testing.T, run *vk.Run, nslots, ctlCap, cloudMode int, pattern uint64) *c07hWorld {
 	bf := &security.BruteForceConfig{MaxFailures: 1000000, TimeWindow: time.Hour, BanDuration: time.Hour, PermanentBanAt: 100000000, CleanupInterval: time.Hour}
 	rl := &security.RateLimitConfig{Rate: 1000000, Burst: 1000000, TTL: time.Hour}
 	sc := &session.SessionConfig{HeartbeatTimeout: time.Hour, CleanupInterval: 2 * time.Millisecond, MaxConnections: 0, MaxControlConnections: ctlCap}
@@ -69,6 +112,9 @@ func c07hNewWorld(t *testing.T, run *vk.Run, nslots, ctlCap int) *c07hWorld {
 		w.clients = append(w.clients, c.ClientID)
 		w.secret[c.ClientID] = c.Secret
 		c.CloseByPeer()
+	}
+	if cloudMode != 0 {
+		n.SM.SetCloudControl(&c07hCloud{CloudControlAPI: session.NewCloudControlAdapter(n.CC), mode: cloudMode, pattern: pattern, run: run})
 	}
 	w.base = n.SM.GetConnectionStats()
 	return w
@@ -467,7 +513,7 @@ var c07hKinds = []string{"connect", "connect", "login", "login", "login", "login
 func TestVerifC07HandshakeRandom(t *testing.T) {
 	run := vk.Start(t, "C07", "handshake-random")
 	defer run.Finish()
-	run.Rule("seeded random sequences of 50-200 applicable operations on the mini-server over 4 connection slots and 3 provisioned clients (+ up to 5 registered on the fly), control-connection cap none or 3: connect, full challenge-response login as X (control / tunnel type; X may differ from the connection's current identity = re-authentication; X may be connected elsewhere = duplicate login), login with a wrong key, phase 1 only, first-connect (new identity on a possibly authenticated connection), heartbeat, heartbeat timeout (LastActiveAt into the past, real background sweep), KickOldControlConnection, disconnect command, CloseConnection from outside, transport EOF; invariants after every operation and after the adapter cleanup; distinct = 3-grams of operation kinds")
+	run.Rule("seeded random sequences of 50-200 applicable operations on the mini-server over 4 connection slots and 3 provisioned clients (+ up to 5 registered on the fly), control-connection cap none or 3, cloud-control state calls healthy / always failing / failing on a seeded pattern (injected at the SessionManager-cloud control boundary): connect, full challenge-response login as X (control / tunnel type; X may differ from the connection's current identity = re-authentication; X may be connected elsewhere = duplicate login), login with a wrong key, phase 1 only, first-connect (new identity on a possibly authenticated connection), heartbeat, heartbeat timeout (LastActiveAt into the past, real background sweep), KickOldControlConnection, disconnect command, CloseConnection from outside, transport EOF; invariants after every operation and after the adapter cleanup; distinct = 3-grams of operation kinds")
 	r := run.Rand("seq")
 	nseq := run.Pick(200, 4000)
 	for s := 0; s < nseq && run.Violations() <= 20; s++ {
@@ -475,7 +521,7 @@ func TestVerifC07HandshakeRandom(t *testing.T) {
 		if r.Intn(3) == 0 {
 			capv = 3
 		}
-		w := c07hNewWorld(t, run, 4, capv)
+		w := c07hNewWorld(t, run, 4, capv, r.Intn(3), r.Uint64())
 		n := 50 + r.Intn(151)
 		run.Case("random-sequence", s)
 		var grams []string
@@ -510,6 +556,7 @@ func TestVerifC07HandshakeRandom(t *testing.T) {
 	run.Floor("heartbeat_timeouts_swept", 10)
 	run.Floor("evicted_conns_reaped", 50)
 	run.Floor("failed_handshakes", 20)
+	run.Floor("cloud_faults_on_disconnect", 50)
 }
 
 // TestVerifC07HandshakeConcurrent: 8 goroutines, one connection slot each, real
@@ -527,7 +574,7 @@ func TestVerifC07HandshakeConcurrent(t *testing.T) {
 		if rd%3 == 2 {
 			capv = 5
 		}
-		w := c07hNewWorld(t, run, G, capv)
+		w := c07hNewWorld(t, run, G, capv, rd%3, uint64(rd)*0x9E3779B97F4A7C15)
 		run.Case("concurrent-round", rd)
 		ok := true
 		for ph := 0; ph < 3 && ok; ph++ {
